@@ -64,7 +64,13 @@ fn permute_world(rng: &mut Rng, w: &World) -> World {
 pub fn gen(m: Mode, tier: &str, seed: u64, idx: u64, base: u64) -> Spec {
     let _ = tier;
     let mut rng = Rng::new(seed);
-    let mut world = if rng.coin(30) { wgen::gen_world(&mut rng, wgen::Profile::Enum) } else { pick_world(&mut rng, base, idx, 50, wgen::Profile::Any) };
+    let mut world = if m == Mode::C18 && rng.coin(35) {
+        wgen::gen_zoo(&mut rng)
+    } else if rng.coin(30) {
+        wgen::gen_world(&mut rng, wgen::Profile::Enum)
+    } else {
+        pick_world(&mut rng, base, idx, 50, wgen::Profile::Any)
+    };
     if m == Mode::C13 {
         // lifetime-free; prefer coherent programs (a few redraws)
         for k in 0..12u64 {
